@@ -473,3 +473,45 @@ func init() {
 		return PtrV{Obj: o, Nil: False()}
 	}
 }
+
+func init() {
+	// strconv.ParseInt(s, base, bitSize): for base 10 and bitSize 64 it is strconv.Atoi's contract;
+	// for any other base (incl. 0, where a leading 0 selects octal) the result is unspecified.
+	extModels["strconv.ParseInt"] = func(x *Exec, fr *Frame, args []Value, pos token.Pos) Value {
+		base, bits := term(args[1]), term(args[2])
+		if base.IsConst() && base.U64() == 10 && bits.IsConst() && (bits.U64() == 64 || bits.U64() == 0) {
+			return extModels["strconv.Atoi"](x, fr, args[:1], pos)
+		}
+		x.notes["strconv.ParseInt with a base other than 10: result unspecified"] = true
+		return TupleV{E: []Value{Scalar{Fresh("parseint!val", BV(64))}, x.errValue(Fresh("parseint!errnil", BoolSort))}}
+	}
+	// os.ReadFile: some octets, or an error
+	extModels["os.ReadFile"] = func(x *Exec, fr *Frame, args []Value, pos token.Pos) Value {
+		n := len(x.inputs)
+		data := x.freshSymSlice("file", 8, types.Typ[types.Uint8])
+		x.inputs = x.inputs[:n]
+		return TupleV{E: []Value{data, x.errValue(Fresh("readfile!errnil", BoolSort))}}
+	}
+	// yaml.Unmarshal(in, out): *out becomes some value determined by the library (arbitrary here) and is
+	// recorded in the ghost log "yaml.out" so that callers can be held to passing it on unchanged.
+	extModels["gopkg.in/yaml.v2.Unmarshal"] = func(x *Exec, fr *Frame, args []Value, pos token.Pos) Value {
+		out, ok := args[1].(IfaceV)
+		if !ok || out.V == nil {
+			unsup("yaml.Unmarshal target")
+		}
+		pv, ok := out.V.(PtrV)
+		if !ok || pv.Obj == nil {
+			unsup("yaml.Unmarshal target is not a pointer")
+		}
+		t := typeAtPath(pv.Obj.Typ, pv.Path)
+		n := len(x.inputs)
+		v := x.freshValue("yaml", t, 2)
+		x.inputs = x.inputs[:n]
+		x.store(pv, v, True())
+		if x.st.ghost == nil {
+			x.st.ghost = map[string][]Value{}
+		}
+		x.st.ghost["yaml.out"] = []Value{v}
+		return x.errValue(Fresh("yaml!errnil", BoolSort))
+	}
+}
